@@ -384,6 +384,9 @@ class Initiator(DataExchangeProtocol):
         return bytearray(frame)
 
     def decode_frame(self, frame):
+        if len(frame) < (2 if self.target.brty == '106A' else 1):
+            error = "NFC-DEP frame without start or length byte"
+            raise nfc.clf.TransmissionError(error)
         if self.target.brty == '106A' and frame.pop(0) != 0xF0:
             error = "first NFC-DEP frame byte must be F0h for 106A"
             raise nfc.clf.ProtocolError(error)
@@ -653,6 +656,9 @@ class Target(DataExchangeProtocol):
         return bytearray(frame)
 
     def decode_frame(self, frame):
+        if len(frame) < (2 if self.target.brty == '106A' else 1):
+            error = "NFC-DEP frame without start or length byte"
+            raise nfc.clf.TransmissionError(error)
         if self.target.brty == '106A' and frame.pop(0) != 0xF0:
             error = "first NFC-DEP frame byte must be F0h for 106A"
             raise nfc.clf.ProtocolError(error)
